@@ -1733,4 +1733,133 @@ theorem sampler_point_is_feasible_flux (n : Net) (hp : n.Proper) (extra : List E
   rw [Extra.row, extraRow_lin] at this
   exact this
 
+/-! ### certificates checked on the problem a builder produces -/
+
+theorem has_toBnd (lb ub : EB) (h : bndOK lb ub = true) (v : Rat) : (toBnd lb ub).has v = true ↔ inBox (lb, ub) v := by
+  cases lb <;> cases ub <;> simp_all [toBnd, bndOK, LPM.Bnd.has, inBox, EB.le]
+
+theorem closedB_spec (p : Prob) (h : p.closedB = true) :
+    (p.vars.map (·.v)).Nodup ∧ (∀ r ∈ p.rows, (∀ q ∈ r.co, q.1 ∈ p.vars.map (·.v)) ∧ bndOK r.lb r.ub = true) ∧
+    (∀ q ∈ p.obj, q.1 ∈ p.vars.map (·.v)) ∧ ∀ w ∈ p.vars, w.kind = .cont ∧ bndOK w.lb w.ub = true := by
+  simp only [Prob.closedB, Bool.and_eq_true, decide_eq_true_eq, List.all_eq_true, List.contains_iff_mem, beq_iff_eq] at h
+  obtain ⟨⟨⟨h1, h2⟩, h3⟩, h4⟩ := h
+  exact ⟨h1, fun r hr => ⟨fun q hq => (h2 r hr).1 q hq, (h2 r hr).2⟩, h3, h4⟩
+
+theorem closed_of_closedB (p : Prob) (h : p.closedB = true) : p.Closed := by
+  obtain ⟨h1, h2, _, h4⟩ := closedB_spec p h
+  exact ⟨h1, fun r hr => (h2 r hr).1, fun w hw => (h4 w hw).1⟩
+
+theorem map_assignOf (vs : List V) (hnd : vs.Nodup) (xs : List Rat) (hl : vs.length = xs.length) : vs.map (assignOf vs xs) = xs := by
+  induction vs generalizing xs with
+  | nil => cases xs <;> simp_all
+  | cons v vs ih =>
+    cases xs with
+    | nil => simp at hl
+    | cons x xs =>
+      simp only [List.nodup_cons] at hnd
+      simp only [List.map_cons, assignOf, if_true]
+      congr 1
+      have hrest : vs.map (fun w => if w = v then x else assignOf vs xs w) = vs.map (assignOf vs xs) := by
+        apply List.map_congr_left
+        intro w hw
+        have : w ≠ v := fun e => hnd.1 (e ▸ hw)
+        simp [this]
+      rw [hrest]
+      exact ih hnd.2 xs (by simpa using hl)
+
+theorem allBox_iff (vars : List Var) (hb : ∀ w ∈ vars, bndOK w.lb w.ub = true) (x : V → Rat) :
+    LPM.allBox (vars.map (fun w => toBnd w.lb w.ub)) (vars.map (fun w => x w.v)) = true ↔ ∀ w ∈ vars, inBox (w.lb, w.ub) (x w.v) := by
+  induction vars with
+  | nil => simp [LPM.allBox]
+  | cons a l ih =>
+    simp only [List.map_cons, LPM.allBox, Bool.and_eq_true, List.forall_mem_cons]
+    rw [has_toBnd _ _ (hb a (by simp)), ih (fun w hw => hb w (by simp [hw]))]
+
+theorem allRows_iff (p : Prob) (rows : List Row) (hb : ∀ r ∈ rows, bndOK r.lb r.ub = true) (xs : List Rat) (hl : xs.length = p.vars.length) :
+    LPM.allRows xs (rows.map (fun r => (p.dense r.co, toBnd r.lb r.ub))) = true ↔ ∀ r ∈ rows, inBox (r.lb, r.ub) (LPM.dot (p.dense r.co) xs) := by
+  induction rows with
+  | nil => simp [LPM.allRows]
+  | cons a l ih =>
+    simp only [List.map_cons, LPM.allRows, Bool.and_eq_true, List.forall_mem_cons, beq_iff_eq]
+    rw [has_toBnd _ _ (hb a (by simp)), ih (fun r hr => hb r (by simp [hr]))]
+    have : (p.dense a.co).length = xs.length := by simp [Prob.dense, hl]
+    simp [this]
+
+/-- the dense form has exactly the feasible points of the problem -/
+theorem toDense_feasible_iff (p : Prob) (h : p.closedB = true) (x : V → Rat) :
+    p.toDense.feasible (p.vars.map (fun w => x w.v)) = true ↔ p.Feasible x := by
+  obtain ⟨_, h2, _, h4⟩ := closedB_spec p h
+  have hc := closed_of_closedB p h
+  unfold LPM.LP.feasible Prob.toDense Prob.Feasible
+  simp only [Bool.and_eq_true, beq_iff_eq, List.length_map, true_and]
+  rw [allBox_iff p.vars (fun w hw => (h4 w hw).2) x, allRows_iff p p.rows (fun r hr => (h2 r hr).2) _ (by simp)]
+  constructor
+  · rintro ⟨hv, hr⟩
+    refine ⟨fun w hw => ⟨hv w hw, by simp [(h4 w hw).1], by simp [(h4 w hw).1]⟩, fun r hr' => ?_⟩
+    have := hr r hr'
+    rwa [dense_dot p hc r hr' x] at this
+  · rintro ⟨hv, hr⟩
+    refine ⟨fun w hw => (hv w hw).1, fun r hr' => ?_⟩
+    rw [dense_dot p hc r hr' x]
+    exact hr r hr'
+
+theorem dot_map_neg (a z : List Rat) : LPM.dot (a.map (fun c => -c)) z = -LPM.dot a z := by
+  induction a generalizing z with
+  | nil => simp [LPM.dot]
+  | cons x a ih =>
+    cases z with
+    | nil => simp [LPM.dot]
+    | cons y z => simp only [List.map_cons, LPM.dot, ih]; ring
+
+theorem toDense_obj (p : Prob) (h : p.closedB = true) (x : V → Rat) :
+    LPM.dot p.toDense.obj (p.vars.map (fun w => x w.v)) = if p.dirMax then p.value x else -p.value x := by
+  obtain ⟨h1, _, h3, _⟩ := closedB_spec p h
+  have hd : LPM.dot (p.dense p.obj) (p.vars.map (fun w => x w.v)) = lin p.obj x := by
+    have := dot_dense (p.vars.map (·.v)) h1 p.obj h3 x
+    simpa [Prob.dense, List.map_map, Function.comp_def] using this
+  unfold Prob.toDense Prob.value
+  by_cases hm : p.dirMax = true
+  · simp only [hm, if_true, List.map_id']
+    exact hd
+  · have hm' : p.dirMax = false := by simpa using hm
+    simp only [hm', Bool.false_eq_true, if_false]
+    rw [dot_map_neg, hd]
+
+/-- **a certificate accepted on the dense form of a builder's problem proves an optimum of that problem**: the point it names is feasible and no
+feasible point is better in the direction of the problem — by the soundness of the checker (`LPM.LP.checkOpt_sound`) -/
+theorem certOpt_isOpt (p : Prob) (xs ys : List Rat) (h : p.certOpt xs ys = true) :
+    p.IsOpt (assignOf (p.vars.map (·.v)) xs) ∧ p.vars.map (fun w => assignOf (p.vars.map (·.v)) xs w.v) = xs := by
+  simp only [Prob.certOpt, Bool.and_eq_true] at h
+  obtain ⟨hcl, hck⟩ := h
+  obtain ⟨hf, hopt⟩ := LPM.LP.checkOpt_sound _ _ _ hck
+  have hlen : xs.length = p.vars.length := by
+    have := hf
+    simp only [LPM.LP.feasible, Bool.and_eq_true, beq_iff_eq] at this
+    simpa [Prob.toDense] using this.1.1
+  have hnd := (closedB_spec p hcl).1
+  have hmap : p.vars.map (fun w => assignOf (p.vars.map (·.v)) xs w.v) = xs := by
+    have := map_assignOf (p.vars.map (·.v)) hnd xs (by simp [hlen])
+    simpa [List.map_map, Function.comp_def] using this
+  refine ⟨⟨?_, fun x' hx' => ?_⟩, hmap⟩
+  · rw [← toDense_feasible_iff p hcl, hmap]; exact hf
+  · have hx'd := (toDense_feasible_iff p hcl x').2 hx'
+    have hle := hopt _ hx'd
+    rw [toDense_obj p hcl x'] at hle
+    have hxs := toDense_obj p hcl (assignOf (p.vars.map (·.v)) xs)
+    rw [hmap] at hxs
+    rw [hxs] at hle
+    by_cases hm : p.dirMax = true
+    · simp only [hm, if_true] at hle ⊢; exact hle
+    · have hm' : p.dirMax = false := by simpa using hm
+      simp only [hm', Bool.false_eq_true, if_false] at hle ⊢; linarith
+
+/-- … and an accepted Farkas certificate proves that the problem has no feasible point -/
+theorem certInfeas_sound (p : Prob) (ys : List Rat) (h : p.certInfeas ys = true) : ¬ ∃ x, p.Feasible x := by
+  simp only [Prob.certInfeas, Bool.and_eq_true] at h
+  obtain ⟨hcl, hck⟩ := h
+  rintro ⟨x, hx⟩
+  have := (toDense_feasible_iff p hcl x).2 hx
+  rw [LPM.LP.checkInfeas_sound _ _ hck _] at this
+  exact Bool.noConfusion this
+
 end AuxM
